@@ -469,6 +469,9 @@ func wsFramesFamily(seed uint64, tier string, args []string) {
 				// a text frame that is not UTF-8 is a WebSocket-level violation that legitimately closes the connection
 				b = []byte(strings.ToValidUTF8(string(b), "?"))
 			}
+			if inexactID(b) {
+				continue // a numeric id that float64 cannot hold: echoed rounded (outside the model's domain, see httpbodies.go)
+			}
 			frames = append(frames, wsFrame{Hex: hex.EncodeToString(b), Binary: bin})
 		}
 		return frames
